@@ -112,6 +112,50 @@ def shiftOut (sh : Shift σ) (k : Nat) : Out σ → Out σ
   | .const c => .const c
   | .payload p => .payload (sh.p k p)
 
+/-! ### which target each implementing type stands for -/
+
+def _root_.PV.C09.Ty.target : Ty → Target
+  | .modModule => .modModule
+  | .modExpression => .modExpression
+  | .modInteractive => .modInteractive
+  | .suite => .suite
+  | .stmt => .stmt
+  | .expr => .expr
+  | .identifier => .identifier
+  | .constant => .constant
+  | .typed p => .variant p.typeEnum p.typeIdx
+
+/-- the hand-written implementations are fixed; a generated one must be a well-formed table row -/
+def _root_.PV.C09.Ty.WF : Ty → Prop
+  | .typed p => p.WF
+  | _ => True
+
+/-- implementations that go through `impl Parse for ast::Stmt` -/
+def _root_.PV.C09.Ty.usesStmt : Ty → Bool
+  | .stmt => true
+  | .typed p => decide (p.parseVia = .stmt)
+  | _ => false
+
+/-- domain predicate of the translation theorem: the text has at least one statement (only asked of
+    the implementations that go through `Stmt`, whose zero-statement error is pinned to offset 0) -/
+def StmtNonEmpty (env : Env σ) (ty : Ty) (toks : List σ.T) : Prop :=
+  ty.usesStmt = true → ∀ m, parseFiltered env .module toks = .ok (.module m) → m.body ≠ []
+
+/-- hypotheses under which translation can be discussed at all: the lexer threads the start offset
+    additively (`PV.C09.lex_shift`, proved on the lexer model), the LALRPOP parser computes every
+    position from the token ranges it is given, the marker moves like a token, trivia stay trivia -/
+structure ShiftEnv (env : Env σ) (sh : Shift σ) (k : Nat) : Prop where
+  lex : ∀ m src, env.lexTop m k src = (env.lexTop m 0 src).map (sh.tok k)
+  parse : ∀ m toks, env.parseTop m (toks.map (sh.tok k)) = shiftRes k (shiftMod sh k) (env.parseTop m toks)
+  marker : ∀ m a b, sh.tok k (env.marker m a b) = env.marker m (a + k) (b + k)
+  trivia : ∀ t, env.isTrivia (sh.tok k t) = env.isTrivia t
+
+/-- the parse result does not depend on the range given to the start marker.  True of the real
+    parser only without `all-nodes-with-ranges` and only when at least one token follows the marker
+    (the `Mod*` range and the location of an `UnrecognizedEof` right after the marker use it). -/
+def MarkerIrrelevant (env : Env σ) : Prop :=
+  ∀ m a b toks, env.parseTop m (env.marker m a b :: toks) = env.parseTop m (env.marker m 0 0 :: toks)
+
 /-! ### mode names
 
   `"exec"` is a statement sequence, `"eval"` one expression.  `"single"` is CPython's interactive
